@@ -41,6 +41,9 @@ CLAIMS = {
  "C17": dict(cat="exploration", tech="rapid generation of signed charts and 37 mutation classes over archive / provenance / armor / file name / keyring; round-trip, metamorphic must-reject rules and a differential against an independent reference verifier, through six entry points",
    text="Helm-signed generated charts receive one mutation (tampering, attacker-style composites, non-semantic edits, crafted validly-signed-but-wrong messages) and a keyring variant; accept/reject must match an independent reference verifier and the must-reject rules, and every wrapper (VerifyChart, action.Verify, LocateChart --verify, DownloadTo with VerifyAlways) must fail exactly when Signatory.Verify does.",
    note="Fixed committed RSA keys (generation cannot be seeded); x/crypto openpgp is the trusted primitive; only .tgz names; expired/revoked keys not covered."),
+ "C18": dict(cat="exploration", tech="rapid grammar-based generation of index documents (YAML/JSON), queries, tag lists and dependency ranges; harness-computed maximum over trusted semver precedence as oracle; resolver observed through the real Manager.Update and the Chart.lock it writes",
+   text="Generated indexes with pre-releases, build metadata, leading v, partial and invalid versions, duplicates, null and metadata-less entries in arbitrary order; LoadIndexFile post-conditions, IndexFile.Get, registry tag matching and dependency resolution are compared with a reference that computes the best match itself.",
+   note="Masterminds/semver trusted for parsing, precedence and constraint satisfaction; OCI paths and file:// dependencies not covered."),
 }
 
 props = [json.loads(l) for l in open('/verif/properties.jsonl')]
